@@ -51,6 +51,8 @@ pub struct Req {
     pub expect: bool,
     pub answers: Vec<Ans>,
     pub dir_gone: bool,
+    /// bytes of padding in an extra header field (heads of about 1 KiB make a pipelined batch overrun the 8 KiB buffer)
+    pub pad: usize,
 }
 impl Req {
     fn full(&self) -> bool {
@@ -70,6 +72,11 @@ impl Req {
         };
         if self.expect {
             m.push_str("expect: 100-continue\r\n");
+        }
+        if self.pad > 0 {
+            m.push_str("x-pad: ");
+            m.push_str(&"p".repeat(self.pad));
+            m.push_str("\r\n");
         }
         m.push_str("\r\n");
         m.into_bytes()
@@ -375,7 +382,10 @@ pub fn run_gen(args: &Args, mut out: Out) {
     let server_nocache = start_server(&executor, small, false, 50);
     for sid in 1..=n {
         let srv = if r.gen_bool(0.1) { &server_nocache } else { &server };
-        let nreq = if r.gen_bool(0.7) { r.gen_range(1..=4) } else { r.gen_range(1..=max_reqs) };
+        // one history in eight is "fat": 9..12 requests with heads of about 1 KiB, so that a pipelined batch is larger
+        // than the connection's 8 KiB buffer and a head straddles its end
+        let fat = sid % 8 == 0;
+        let nreq = if fat { r.gen_range(9..=max_reqs.max(9)) } else if r.gen_bool(0.7) { r.gen_range(1..=4) } else { r.gen_range(1..=max_reqs) };
         let mut reqs = vec![];
         for i in 0..nreq {
             let last = i + 1 == nreq;
@@ -417,14 +427,17 @@ pub fn run_gen(args: &Args, mut out: Out) {
                 kind: k2,
                 declared: len as u64,
                 body: body_bytes(sid, i, len),
-                expect: k2 != "none" && k2 != "malformed" && r.gen_bool(0.2),
-                answers: vec![a1, a2],
+                expect: !fat && k2 != "none" && k2 != "malformed" && r.gen_bool(0.2),
+                answers: if fat && k2 != "malformed" { vec![Ans::Normal(200), Ans::Normal(200)] } else { vec![a1, a2] },
                 dir_gone: false,
+                pad: if fat { r.gen_range(700..1300) } else { 0 },
             });
         }
         let any_expect = reqs.iter().any(|q| q.expect);
         let sched = if any_expect {
             Schedule::PingPong
+        } else if fat {
+            *[Schedule::Single, Schedule::Single, Schedule::Fragments].choose(&mut r).unwrap()
         } else {
             *[Schedule::Single, Schedule::Fragments, Schedule::ByteAtATime, Schedule::PingPong].choose(&mut r).unwrap()
         };
@@ -503,6 +516,7 @@ pub fn run_limits(args: &Args, mut out: Out) {
                                     expect,
                                     answers: vec![Ans::Fetch(m), Ans::Normal(200)],
                                     dir_gone: false,
+                pad: 0,
                                 };
                                 {
                                     let mut g = server.script.lock().unwrap();
@@ -563,6 +577,7 @@ pub fn run_limits(args: &Args, mut out: Out) {
                 expect: false,
                 answers: vec![Ans::Fetch(*[100_000u64, 200, u64::MAX].choose(&mut r).unwrap()), outcomes[(round + j) % outcomes.len()].clone()],
                 dir_gone: false,
+                pad: 0,
             };
             batch.push((sid, vec![q], cut));
         }
@@ -612,6 +627,7 @@ pub fn run_limits(args: &Args, mut out: Out) {
             expect: false,
             answers: vec![Ans::Fetch(100_000), Ans::Normal(200)],
             dir_gone: true,
+            pad: 0,
         };
         gone_server.script.lock().unwrap().insert(format!("/s{sid}/r1"), (q.answers.clone(), 0));
         servlin::verif::start();
@@ -622,5 +638,53 @@ pub fn run_limits(args: &Args, mut out: Out) {
         log_conn(&mut out, sid, &gone_server, &reqs, json!({"dirGone": true}), &recs, &cr, false, false, ended, 0);
     }
     take_panics();
+    out.finish();
+}
+
+// ------------------------------------------------------------------------------ recv-body
+/// `Request::recv_body(M)` for every body state x length x limit at the boundaries (C09's helper anchor).
+pub fn run_recv_body(_args: &Args, mut out: Out) {
+    use fixed_buffer::FixedBuf;
+    let lens: Vec<u64> = vec![0, 1, 99, 100, 101, 65536, 1 << 31, 1 << 63, u64::MAX - 1, u64::MAX];
+    let mut sid = 0u64;
+    let make = |extra: &str| -> Request {
+        let wire = format!("PUT /x HTTP/1.1\r\n{extra}\r\n");
+        let mut buf: FixedBuf<8192> = FixedBuf::new();
+        let mut rd = ScriptedReader::new(wire.into_bytes(), vec![]);
+        poll_budget(servlin::internal::read_http_request(localhost(1), &mut buf, &mut rd), 100).unwrap().unwrap()
+    };
+    for &l in &lens {
+        for &m in &lens {
+            // (state, known, body constructor)
+            let mut cases: Vec<(&str, bool, Request)> = vec![];
+            let mut a = make(&format!("content-length: {l}\r\n"));
+            a.body = RequestBody::PendingKnown(l);
+            cases.push(("pending", true, a));
+            cases.push(("pending", false, make("transfer-encoding: chunked\r\n")));
+            if l <= 65536 {
+                let mut b = make("");
+                b.body = RequestBody::Vec(vec![7u8; l as usize]);
+                cases.push(("received", true, b));
+            }
+            for (state, known, req) in cases {
+                sid += 1;
+                if !out.wants(sid) {
+                    continue;
+                }
+                let res = catch(|| req.recv_body(m));
+                let outv = match &res {
+                    Err(()) => json!({"k":"Panic","code":0,"fetch":[]}),
+                    Ok(Ok(_)) => json!({"k":"Ok","code":0,"fetch":[]}),
+                    Ok(Err(resp)) => match resp.kind {
+                        servlin::internal::ResponseKind::GetBodyAndReprocess(n) => json!({"k":"Fetch","code":0,"fetch":adigits(n)}),
+                        servlin::internal::ResponseKind::Normal => json!({"k":"Resp","code":resp.code,"fetch":[]}),
+                        servlin::internal::ResponseKind::DropConnection => json!({"k":"Drop","code":0,"fetch":[]}),
+                    },
+                };
+                out.ev(sid, "Reset", json!({}));
+                out.ev(sid, "RecvBody", json!({"state":state,"known":known,"L":adigits(if known { l } else { 0 }),"M":adigits(m),"out":outv,"panic":res.is_err()}));
+            }
+        }
+    }
     out.finish();
 }
